@@ -157,6 +157,15 @@ def run(F, rep, tier):
     # "can be read again ... same metadata": the metadata element the writer emits is in the language the reader accepts,
     # with byte-counted lengths on both sides (C16's grammar agreement), placed after the raw element under the same keys
     from props import C16
+    # End::size feeds the doubled-Game-End test of the reader and the payload table of a game without an end
+    from props import C05 as _C05
+    _C05.end_size_rule(F, rep)
+    # the reader must accept every well-formed file: the block decoders refuse nothing the spec's value domains allow
+    import model as _model
+    _C05.end_rule(F, rep, _model.load_spec("start_spec.json"))
+    _C05.no_extra_refusal_rule(F, rep)
+    from props import C08 as _C08
+    _C08.trailing_rule(F, rep)
     C16.reader_grammar(F, rep)
     C16.writer_grammar(F, rep)
     C16.writer_domain_rule(F, rep)
